@@ -223,7 +223,13 @@ fn exec_search(query: Vec<String>, config: &mut Config, default_config: &Config,
             let use_colors = !no_color && is_terminal;
 
             let mut searcher = Searcher::new(&query, config, default_config, use_colors);
-            searcher.list_search_results().unwrap();
+            if let Err(err) = searcher.list_search_results() {
+                // a consumer that stops reading is not an error of the search
+                if err.kind() != std::io::ErrorKind::BrokenPipe {
+                    error_message("output", &err.to_string());
+                    return 1;
+                }
+            }
 
             let error_count = searcher.error_count;
             match error_count {
